@@ -310,6 +310,14 @@ package db
 //@   before[new-id]     call addRevision#1 $3.ID == callres(CreateRevIDWithBytes, 1, 0) && $3.Deleted == isDelete
 //@   before[parent]     call addRevision#1 $3.Parent == doc.SyncData.GetRevTreeID()
 //@   before[generation] call addRevision#1 pGen($3.Parent) >= 0 ==> revOK($3.ID) && revGenOf($3.ID) == pGen($3.Parent) + 1
+// (C19) in EVERY invocation the raw body that names the new revision and is installed on the imported document is
+// derived from THIS invocation's document: the bucket bytes of this attempt, or the canonical encoding computed in
+// this invocation from the body with the internal properties stripped (and then only if nothing was stripped).
+// A value kept from an earlier invocation (CAS retry of an on-demand import) would seed the revision cache with a
+// body that has been overwritten in the bucket.
+//@   before[raw-body-of-this-attempt] call CreateRevIDWithBytes#1 (len(#existingDoc.Body) > 0 && $2 == #existingDoc.Body) || (len(#existingDoc.Body) == 0 && called(JSONMarshalCanonical, 1) && $2 == callres(JSONMarshalCanonical, 1, 0))
+//@   before[installed-raw-body] call SetAttachments newDoc._body == #body && (newDoc._rawBody == nil || (!isDelete && ((len(#existingDoc.Body) > 0 && newDoc._rawBody == #existingDoc.Body) || (len(#existingDoc.Body) == 0 && called(JSONMarshalCanonical, 1) && newDoc._rawBody == callres(JSONMarshalCanonical, 1, 0) && !callres(StripInternalProperties, 1, 1)))))
+//@   also C19: raw-body-of-this-attempt, installed-raw-body
 
 // ---- the read path: on-demand import only for external writes (path contract) ----
 
